@@ -208,6 +208,90 @@ pub fn run_gov(gov: &str, topics: &[&str], k128: bool, lens: &[usize], depth: &D
         });
       }
     }
+    // key material of another scope: every key material the writer hands to its matched readers (the tokens of
+    // the real key exchange) is tried as the key of a secure-submessage group around a forged plain DATA - in
+    // particular the payload-scope material, which is of kind NONE where only the metadata are protected.  Any
+    // matched reader holds these tokens; none of it may reach the reader.
+    if p.flows[f].r_attrs.is_submessage_protected {
+      use crate::{
+        messages::submessages::submessages::SecuritySubmessage,
+        rtps::{Message, SubmessageBody},
+      };
+      let (w, r) = (p.flows[f].w, p.flows[f].r);
+      let tokens = p.s.h.get_plugins().create_local_writer_crypto_tokens(w, r).unwrap_or_default();
+      let mats: Vec<([u8; 4], [u8; 4])> = tokens
+        .iter()
+        .filter_map(|t| t.data_holder.binary_properties.first().map(|bp| bp.value.to_vec()))
+        .filter_map(|b| {
+          // CDR big-endian: kind, salt (length-prefixed, padded), sender key id
+          let kind: [u8; 4] = b.get(0..4)?.try_into().ok()?;
+          let n = u32::from_be_bytes(b.get(4..8)?.try_into().ok()?) as usize;
+          let at = (8 + n + 3) & !3;
+          Some((kind, b.get(at..at + 4)?.try_into().ok()?))
+        })
+        .collect();
+      let (sn0, dgs) = p.send_real(f, 5, false);
+      for d in &dgs {
+        p.inject(d);
+      }
+      if let Some(genuine) = dgs.first().and_then(|d| Message::read_from_buffer(&bytes::Bytes::from(d.clone())).ok()) {
+        // with RTPS protection the groups are inside the message-level wrapping: take them from the inner message
+        let inner_plain = {
+          let cc = crate::verif::wire::cc_data(w, sn0 + 70, vec![7; 8]);
+          crate::rtps::MessageBuilder::new().data_msg(&cc, r.entity_id, w, speedy::Endianness::LittleEndian, None).add_header_and_build(p.s.prefix())
+        };
+        let grp = p.protect(f, &inner_plain, true, false).ok().and_then(|b| Message::read_from_buffer(&bytes::Bytes::from(b)).ok());
+        let _ = genuine;
+        if let Some(grp) = grp {
+          let pre = grp.submessages.iter().find(|s| matches!(s.body, SubmessageBody::Security(SecuritySubmessage::SecurePrefix(..)))).cloned();
+          let post = grp.submessages.iter().find(|s| matches!(s.body, SubmessageBody::Security(SecuritySubmessage::SecurePostfix(..)))).cloned();
+          let forged_data = inner_plain.submessages.last().cloned();
+          if let (Some(pre), Some(post), Some(forged_data)) = (pre, post, forged_data) {
+            let genuine_id = match &pre.body {
+              SubmessageBody::Security(SecuritySubmessage::SecurePrefix(sp, _)) => Some(sp.crypto_header.transformation_id.clone()),
+              _ => None,
+            };
+            for (kind, key_id) in &mats {
+              for (kname, use_kind) in [("the kind of that key material", *kind), ("kind NONE", [0u8, 0, 0, 0])] {
+                if genuine_id.as_ref().map_or(false, |g| g.transformation_key_id == crate::security::cryptographic::types::CryptoTransformKeyId::from(*key_id) && g.transformation_kind == use_kind) {
+                  continue; // that is the genuine header
+                }
+                st.cases += 1;
+                let mut pre2 = pre.clone();
+                if let SubmessageBody::Security(SecuritySubmessage::SecurePrefix(sp, _)) = &mut pre2.body {
+                  sp.crypto_header.transformation_id.transformation_kind = use_kind;
+                  sp.crypto_header.transformation_id.transformation_key_id = (*key_id).into();
+                }
+                pre2.original_bytes = None;
+                let inner = Message { header: grp.header, submessages: vec![pre2, forged_data.clone(), post.clone()] };
+                // message-level protection applied correctly around it where the domain requires it
+                let out = match p.s.h.get_plugins().encode_message(inner, &p.s.prefix(), &[p.r.prefix()]) {
+                  Ok(m) => m,
+                  Err(_) => continue,
+                };
+                let Ok(bytes) = speedy::Writable::write_to_vec_with_ctx(&out, speedy::Endianness::LittleEndian) else { continue };
+                st.encodings += 1;
+                let before = p.cache(f);
+                let ok = std::panic::catch_unwind(std::panic::AssertUnwindSafe(|| p.inject(&bytes))).is_ok();
+                let new: Vec<_> = p.cache(f).into_iter().filter(|x| !before.contains(x)).collect();
+                tally(&mut st, if new.is_empty() { "rejected" } else { "data" });
+                let case = format!("{gov} {topic}: SEC_PREFIX naming key id {key_id:02x?} with {kname}, a plain forged DATA, SEC_POSTFIX");
+                if !ok {
+                  st.problems.push(Problem { key: "C16:panic:cross-scope".into(), case, what: "the receiver panicked".into() });
+                } else if !new.is_empty() {
+                  st.problems.push(Problem {
+                    key: format!("C16:forgery:other-scope-key:{lvl}"),
+                    case,
+                    what: format!("a DATA that was never protected with the submessage key material reached the reader (sn {:?}): the group names key material of another scope of the same writer", new.iter().map(|x| x.0).collect::<Vec<_>>()),
+                  });
+                  p.reset_reader(f, false);
+                }
+              }
+            }
+          }
+        }
+      }
+    }
     // the remote endpoints are unmatched and matched again while their participants live on: what is sent
     // afterwards must decode like before (twice: stale state of the first re-match must not spoil the second)
     for round in 1..=2 {
